@@ -39,7 +39,7 @@ import (
 
 var (
 	c07SDK        = []string{"2026-07-28", "2025-11-25", "2025-06-18", "2025-03-26", "2024-11-05"}
-	c07Requested  = []string{"", "2026-07-28", "2025-11-25", "2025-06-18", "2025-03-26", "2024-11-05", "2020-01-01", "2025-07-01", "2099-12-31", "zzz", "1.0", "2026-07-29"}
+	c07Requested  = []string{"", "2026-07-28", "2025-11-25", "2025-06-18", "2025-03-26", "2024-11-05", "2020-01-01", "2025-07-01", "2099-12-31", "zzz", "1.0", "2026-07-29", c07EmptyOptions}
 	c07Transports = []string{"mem", "mem-legacy", "pipe", "pipe-legacy", "sse", "http", "http-json", "http-es", "http-json-es", "http-nosid", "http-nosid-json", "http-stateless", "http-stateless-json", "http-stateless-es"}
 	c07Priors     = []string{"none", "stateless-first", "stateful-open", "stateless-open", "sse-first"}
 	c07Discovers  = []string{"ok", "notfound", "invalid-params", "unsupported-data", "unsupported-data-always", "unsupported-nodata", "internal", "unsupported-data-sdkwide"}
@@ -54,10 +54,15 @@ var (
 		{"2027-01-01", "2025-06-18"},
 		{},
 	}
-	c07Inits = []string{"std", "unknown-version", "error", "future-version"}
+	c07Inits = []string{"std", "unknown-version", "error", "future-version", "echo"}
 )
 
 const c07Modern = "2026-07-28"
+
+// c07EmptyOptions stands for a non-nil ClientSessionOptions whose ProtocolVersion is empty: the default.
+const c07EmptyOptions = "<empty options>"
+
+var c07HTTPDiscover = []string{"404-plain", "400-plain", "405-plain", "404-json", "400-json", "200-json-notfound", "404-empty", "401-plain-then-404"}
 
 type c07Spec struct {
 	Part      string   `json:"part"`
@@ -77,7 +82,19 @@ func c07ScriptCells() int {
 	return len(c07Requested) * len(c07Discovers) * len(c07Sets) * len(c07Inits) * 2
 }
 
+func c07HTTPCells() int { return len(c07HTTPDiscover) * 4 * 2 }
+
 func c07Cell(i int) c07Spec {
+	if i >= c07RealCells()+c07ScriptCells() {
+		i -= c07RealCells() + c07ScriptCells()
+		s := c07Spec{Part: "http-script"}
+		s.Discover = c07HTTPDiscover[i%len(c07HTTPDiscover)]
+		i /= len(c07HTTPDiscover)
+		s.Requested = []string{"", c07Modern, "2099-12-31", c07EmptyOptions}[i%4]
+		i /= 4
+		s.Handlers = i%2 == 1
+		return s
+	}
 	if i < c07RealCells() {
 		s := c07Spec{Part: "real"}
 		s.Requested = c07Requested[i%len(c07Requested)]
@@ -104,7 +121,7 @@ func c07Cell(i int) c07Spec {
 }
 
 func TestVerifC07(t *testing.T) {
-	total := c07RealCells() + c07ScriptCells()
+	total := c07RealCells() + c07ScriptCells() + c07HTTPCells()
 	cfg := vh.Config{
 		Property:   "C07",
 		Cases:      total,
@@ -120,9 +137,12 @@ func TestVerifC07(t *testing.T) {
 	vh.Run(t, cfg, func(c *vh.Case) {
 		spec := c07Cell(c.Index)
 		c.SetSpec(spec)
-		if spec.Part == "real" {
+		switch spec.Part {
+		case "real":
 			c.Bubble("", func() { runC07Real(c, spec) })
-		} else {
+		case "http-script":
+			c.Bubble("", func() { runC07HTTP(c, spec) })
+		default:
 			c.Bubble("", func() { runC07Script(c, spec) })
 		}
 	})
@@ -239,10 +259,7 @@ func runC07Real(c *vh.Case, spec c07Spec) {
 	log.Add("main-connect")
 
 	// ---- the connection under test
-	var copts *mcp.ClientSessionOptions
-	if spec.Requested != "" {
-		copts = &mcp.ClientSessionOptions{ProtocolVersion: spec.Requested}
-	}
+	copts := c07Options(spec.Requested)
 	client := c07Client(spec.Handlers)
 	var cs *mcp.ClientSession
 	var err error
@@ -290,7 +307,7 @@ func runC07Real(c *vh.Case, spec c07Spec) {
 
 	// ---- oracle
 	requested := spec.Requested
-	if requested == "" {
+	if requested == "" || requested == c07EmptyOptions {
 		requested = c07Modern
 	}
 	reqIsSDK := slices.Contains(c07SDK, requested)
@@ -465,6 +482,8 @@ func runC07Script(c *vh.Case, spec c07Spec) {
 				default:
 					sc.Inject(vhm.ErrResp(req.ID, -32602, "unsupported protocol version", ""))
 				}
+			case "echo":
+				sc.Inject(vhm.Resp(req.ID, vhm.InitializeResultJSON(p.ProtocolVersion)))
 			case "unknown-version":
 				sc.Inject(vhm.Resp(req.ID, vhm.InitializeResultJSON("1999-01-01")))
 			case "future-version":
@@ -486,10 +505,7 @@ func runC07Script(c *vh.Case, spec c07Spec) {
 		}
 		return nil
 	}
-	var copts *mcp.ClientSessionOptions
-	if spec.Requested != "" {
-		copts = &mcp.ClientSessionOptions{ProtocolVersion: spec.Requested}
-	}
+	copts := c07Options(spec.Requested)
 	client := c07Client(spec.Handlers)
 	cctx, cancel := context.WithTimeout(ctx, 30*time.Second)
 	defer cancel()
@@ -497,13 +513,16 @@ func runC07Script(c *vh.Case, spec c07Spec) {
 
 	// ---- oracle
 	requested := spec.Requested
-	if requested == "" {
+	if requested == "" || requested == c07EmptyOptions {
 		requested = c07Modern
 	}
 	discoverWorks := spec.Discover == "ok" || spec.Discover == "unsupported-data" || spec.Discover == "unsupported-data-sdkwide"
 	serverHas := func(v string) bool {
 		if v >= c07Modern {
 			return discoverWorks && slices.Contains(set, v)
+		}
+		if spec.Init == "echo" {
+			return true
 		}
 		return slices.Contains(legacy, v) && spec.Init == "std"
 	}
@@ -519,6 +538,11 @@ func runC07Script(c *vh.Case, spec c07Spec) {
 	nDisc, nInit := len(st.discovers), len(st.inits)
 	st.mu.Unlock()
 	mustSucceed := (requested >= c07Modern && modernOverlap) || (legacyOverlap && (requested < c07Modern || !modernOverlap))
+	if spec.Init == "echo" {
+		// this server answers initialize with whatever version was asked for
+		legacyOverlap = true
+		mustSucceed = (requested >= c07Modern) || slices.Contains(c07SDK, requested)
+	}
 	sig := fmt.Sprintf("script/%s/%s/%v/%s/%v", spec.Requested, spec.Discover, spec.Set, spec.Init, spec.Handlers)
 	if err != nil {
 		log.Add("connect-failed", "err", err.Error())
@@ -578,3 +602,136 @@ func runC07Script(c *vh.Case, spec c07Spec) {
 }
 
 var _ = testing.Short
+
+
+func c07Options(requested string) *mcp.ClientSessionOptions {
+	switch requested {
+	case "":
+		return nil
+	case c07EmptyOptions:
+		return &mcp.ClientSessionOptions{}
+	}
+	return &mcp.ClientSessionOptions{ProtocolVersion: requested}
+}
+
+// ---- real streamable client x scripted legacy HTTP endpoint that does not know server/discover
+
+type c07HTTPServer struct {
+	c        *vh.Case
+	spec     c07Spec
+	mu       sync.Mutex
+	methods  []string
+	nDisc    int
+	versions []string
+}
+
+func (s *c07HTTPServer) resp(req *http.Request, status int, ctype, body string, hdr map[string]string) *http.Response {
+	h := http.Header{}
+	if ctype != "" {
+		h.Set("Content-Type", ctype)
+	}
+	for k, v := range hdr {
+		h.Set(k, v)
+	}
+	return &http.Response{Status: fmt.Sprintf("%d %s", status, http.StatusText(status)), StatusCode: status, Proto: "HTTP/1.1", ProtoMajor: 1, ProtoMinor: 1, Header: h,
+		Body: io.NopCloser(strings.NewReader(body)), Request: req, ContentLength: int64(len(body))}
+}
+
+func (s *c07HTTPServer) RoundTrip(req *http.Request) (*http.Response, error) {
+	if err := req.Context().Err(); err != nil {
+		return nil, err
+	}
+	s.mu.Lock()
+	defer s.mu.Unlock()
+	switch req.Method {
+	case "GET":
+		return s.resp(req, 405, "text/plain", "no standalone stream", nil), nil
+	case "DELETE":
+		return s.resp(req, 204, "", "", nil), nil
+	}
+	body, _ := io.ReadAll(req.Body)
+	var m struct {
+		ID     json.RawMessage `json:"id"`
+		Method string          `json:"method"`
+		Params struct {
+			ProtocolVersion string `json:"protocolVersion"`
+		} `json:"params"`
+	}
+	json.Unmarshal(body, &m)
+	s.methods = append(s.methods, m.Method)
+	s.c.Log.Add("http-request", "method", m.Method, "version_header", req.Header.Get("Mcp-Protocol-Version"))
+	switch m.Method {
+	case "server/discover":
+		s.nDisc++
+		switch s.spec.Discover {
+		case "404-plain":
+			return s.resp(req, 404, "text/plain; charset=utf-8", "404 page not found\n", nil), nil
+		case "404-empty":
+			return s.resp(req, 404, "", "", nil), nil
+		case "400-plain":
+			return s.resp(req, 400, "text/plain", "Bad Request: unknown method", nil), nil
+		case "405-plain":
+			return s.resp(req, 405, "text/plain", "method not allowed", nil), nil
+		case "404-json":
+			return s.resp(req, 404, "application/json", fmt.Sprintf(`{"jsonrpc":"2.0","id":%s,"error":{"code":-32601,"message":"method not found"}}`, m.ID), nil), nil
+		case "400-json":
+			return s.resp(req, 400, "application/json", fmt.Sprintf(`{"jsonrpc":"2.0","id":%s,"error":{"code":-32601,"message":"method not found"}}`, m.ID), nil), nil
+		case "401-plain-then-404":
+			if s.nDisc == 1 {
+				return s.resp(req, 404, "text/html", "<html>not here</html>", nil), nil
+			}
+			return s.resp(req, 404, "text/plain", "not found", nil), nil
+		default: // 200-json-notfound
+			return s.resp(req, 200, "application/json", fmt.Sprintf(`{"jsonrpc":"2.0","id":%s,"error":{"code":-32601,"message":"method not found"}}`, m.ID), nil), nil
+		}
+	case "initialize":
+		s.versions = append(s.versions, m.Params.ProtocolVersion)
+		v := m.Params.ProtocolVersion
+		if !slices.Contains(c07SDK, v) || v >= c07Modern {
+			v = "2025-11-25"
+		}
+		return s.resp(req, 200, "application/json", fmt.Sprintf(`{"jsonrpc":"2.0","id":%s,"result":%s}`, m.ID, vhm.InitializeResultJSON(v)), map[string]string{"Mcp-Session-Id": "legacy-1"}), nil
+	case "tools/list":
+		return s.resp(req, 200, "application/json", fmt.Sprintf(`{"jsonrpc":"2.0","id":%s,"result":{"tools":[{"name":"echo","inputSchema":{"type":"object"}}]}}`, m.ID), nil), nil
+	case "tools/call":
+		return s.resp(req, 200, "application/json", fmt.Sprintf(`{"jsonrpc":"2.0","id":%s,"result":{"content":[{"type":"text","text":"echo:hi"}]}}`, m.ID), nil), nil
+	}
+	if len(m.ID) == 0 {
+		return s.resp(req, 202, "", "", nil), nil
+	}
+	return s.resp(req, 200, "application/json", fmt.Sprintf(`{"jsonrpc":"2.0","id":%s,"result":{}}`, m.ID), nil), nil
+}
+
+func runC07HTTP(c *vh.Case, spec c07Spec) {
+	ctx := context.Background()
+	srv := &c07HTTPServer{c: c, spec: spec}
+	client := c07Client(spec.Handlers)
+	cctx, cancel := context.WithTimeout(ctx, 60*time.Second)
+	defer cancel()
+	cs, err := client.Connect(cctx, &mcp.StreamableClientTransport{Endpoint: "http://example.test/mcp", HTTPClient: &http.Client{Transport: srv}}, c07Options(spec.Requested))
+	srv.mu.Lock()
+	methods := append([]string(nil), srv.methods...)
+	srv.mu.Unlock()
+	sig := fmt.Sprintf("http-script/%s/%s/%v", spec.Requested, spec.Discover, spec.Handlers)
+	c.Nontrivial(sig)
+	if err != nil {
+		c.Log.Add("connect-failed", "err", err.Error())
+		if !slices.Contains(methods, "initialize") {
+			c.Violate("no-fallback-to-initialize", "requested %q; the legacy endpoint answered server/discover with %s; initialize was never sent (requests: %v): %v", spec.Requested, spec.Discover, methods, err)
+		} else {
+			c.Violate("connect-failed/http-script", "requested %q; legacy endpoint (discover answered %s) offers 2025-11-25 via initialize, but Connect failed (requests: %v): %v", spec.Requested, spec.Discover, methods, err)
+		}
+		time.Sleep(11 * time.Second)
+		return
+	}
+	v := cs.InitializeResult().ProtocolVersion
+	c.Log.Add("connected", "version", v)
+	c.Seen("negotiated", fmt.Sprintf("http-script/%s/%s->%s", spec.Requested, spec.Discover, v))
+	if v >= c07Modern || !slices.Contains(c07SDK, v) {
+		c.Violate("negotiated-version-server-lacks", "requested %q against a legacy HTTP endpoint (discover: %s): negotiated %q", spec.Requested, spec.Discover, v)
+	} else {
+		c07Use(c, ctx, cs, v)
+	}
+	cs.Close()
+	time.Sleep(11 * time.Second)
+}
